@@ -241,6 +241,16 @@ class Proc(object):
             raise Untranslatable("free name %s" % e.id)
         if isinstance(e, ast.Attribute):
             return self.attribute(e, env)
+        if isinstance(e, ast.Subscript) and isinstance(e.value, ast.Subscript):
+            # obj[a][b] on a record with a declared two-level look-up (the raw parser: section, then option)
+            try:
+                bt0, bty0 = self.expr(e.value.value, env)
+            except Untranslatable:
+                bt0, bty0 = None, None
+            if isinstance(bty0, tuple) and bty0[0] == "Rec":
+                m2 = self.spec.get("methods", {}).get((bty0[1], "__getitem2__"))
+                if m2:
+                    return ("(%s %s %s %s)" % (m2[0], bt0, self.coerce(*self.expr(e.value.slice, env), m2[1][0]), self.coerce(*self.expr(e.slice, env), m2[1][1])), m2[2])
         if isinstance(e, ast.Subscript):
             # dictionary-valued attribute of a record, declared as an opaque look-up:  pot.electronDensityFunction[species]
             if isinstance(e.value, ast.Attribute):
@@ -318,6 +328,9 @@ class Proc(object):
         k = self.seg(e)
         if k in env.vars:
             return env.vars[k]
+        if k in self.spec.get("const_attrs", {}):
+            # a class-level constant of another class, declared with its value (checked against the class statement in gen_logic)
+            return self.spec["const_attrs"][k][0], self.spec["const_attrs"][k][1]
         base, bty = self.expr(e.value, env)
         if isinstance(bty, tuple) and bty[0] == "Rec" and (bty[1], e.attr) in self.spec.get("properties", {}):
             # a property of the object, translated on its own (spec["properties"]: (record, attribute) -> (file, function name))
@@ -325,7 +338,8 @@ class Proc(object):
             cands = [self.procs[pk]] + list(self.procs[pk].get("variants", []))
             for pp in cands:
                 if pp["params"][0][1] == bty:
-                    return ("(%s %s)" % (pp["name"], base), pp["ret"])
+                    imp = " ".join(n for n, _ in pp.get("implicit", []))
+                    return ("(%s %s %s)" % (pp["name"], imp, base) if imp else "(%s %s)" % (pp["name"], base), pp["ret"])
             raise Untranslatable("property %s is not translated for %s" % (e.attr, bty[1]))
         if isinstance(bty, tuple) and bty[0] == "Rec":
             fields = self.spec.get("records", {}).get(bty[1], {})
@@ -392,6 +406,9 @@ class Proc(object):
         if isinstance(op, (ast.In, ast.NotIn)):
             x, xty = self.expr(a, env)
             c, cty = self.expr(b, env)
+            if cty == "Str" and xty == "Str":
+                t = "(strContains %s %s)" % (c, x)          # substring test
+                return (t if isinstance(op, ast.In) else "(!%s)" % t, "Bool")
             if isinstance(cty, tuple) and cty[0] in ("AssocL", "ODict") and cty[1] == xty:
                 t = "(%s.any fun e => e.1 == %s)" % (c, x)
                 return (t if isinstance(op, ast.In) else "(!%s)" % t, "Bool")
@@ -467,6 +484,30 @@ class Proc(object):
 
     def call(self, e, env):
         f = e.func
+        if isinstance(f, ast.Attribute) and f.attr == "format" and not e.args and e.keywords and self.spec.get("str_format"):
+            # "{a}:{b}".format(a = x, b = y) with text arguments: the concatenation of the pieces
+            fmt = self.const_str(f.value, env)
+            if fmt is None:
+                raise Untranslatable("format template is not a constant")
+            import re as _re
+            kw = dict((k_.arg, k_.value) for k_ in e.keywords)
+            pieces = _re.split(r"(\{\w+\})", fmt)
+            out = []
+            for pc in pieces:
+                if _re.fullmatch(r"\{\w+\}", pc):
+                    if pc[1:-1] not in kw:
+                        raise Untranslatable("template names %s, no such keyword" % pc)
+                    t, ty = self.expr(kw[pc[1:-1]], env)
+                    if ty != "Str":
+                        raise Untranslatable("template argument %s is not text" % pc)
+                    out.append(t)
+                elif pc:
+                    if "{" in pc or "}" in pc:
+                        raise Untranslatable("template field with a format specification")
+                    out.append(lstr(pc))
+            if set(kw) - set(pc[1:-1] for pc in pieces if _re.fullmatch(r"\{\w+\}", pc)):
+                raise Untranslatable("keyword not used by the template")
+            return ("(" + " ++ ".join(out) + ")", "Str")
         if e.keywords and isinstance(f, ast.Name) and f.id in self.spec.get("rec_constructors", {}) and not e.args \
                 and [k.arg for k in e.keywords] == self.spec.get("rec_fields", {}).get(f.id):
             # a namedtuple built with all its fields by keyword, in field order
@@ -487,7 +528,11 @@ class Proc(object):
                 and f.attr in self.spec.get("super_calls", {}):
             # super(Class, self).method(...): the base class's method, translated on its own under the declared name
             target = self.procs[("name", self.spec["super_calls"][f.attr])]
-            return self.call_proc(target, f.attr, ast.Name(id=f.attr, ctx=ast.Load()), e, env)
+            self._via_super = True
+            try:
+                return self.call_proc(target, f.attr, ast.Name(id=f.attr, ctx=ast.Load()), e, env)
+            finally:
+                self._via_super = False
         fname = None
         if isinstance(f, ast.Name):
             fname = f.id
@@ -573,7 +618,7 @@ class Proc(object):
                     raise Untranslatable("%s needs the operation %s, which the caller does not declare" % (fname, n))
             imp = " ".join(n for n, _ in p.get("implicit", []))
             if hasattr(self, "called"):
-                self.called.append(p)
+                (self.called_super if getattr(self, "_via_super", False) else self.called).append(p)
             return ("(%s %s %s)" % (p["name"], imp, " ".join(args)), p["ret"])
 
     def call_other(self, fname, f, e, env):
@@ -742,6 +787,10 @@ class Proc(object):
             t, ty = self.expr(f.value, env)
             if ty == "Str":
                 return ("(%s %s '%s')" % ("pySplitFirst" if f.attr == "split" else "pyRSplitLast", t, e.args[0].value), ("List", "Str"))
+        if isinstance(f, ast.Attribute) and f.attr == "items" and not e.args and self.seg(f.value) in env.vars \
+                and isinstance(env.vars[self.seg(f.value)][1], tuple) and env.vars[self.seg(f.value)][1][0] in ("ODict", "AssocL"):
+            d, dty = env.vars[self.seg(f.value)]
+            return (d, ("List", ("Prod", dty[1], dty[2])))
         if fname == "enumerate" and len(e.args) == 1:
             t, ty = self.expr(e.args[0], env)
             if isinstance(ty, tuple) and ty[0] == "List":
@@ -1213,6 +1262,9 @@ class Proc(object):
                 lean = self.spec["local_imports"][(s.module, a.name)]
                 en = en.bind(a.name, lean, dict(self.fixed)[lean])
             return self.block(rest, en, k)
+        if isinstance(s, ast.ImportFrom) and all(a.asname is None and a.name in self.spec.get("import_names_only", []) for a in s.names):
+            # an import inside the function of a class that is used only through declared operations / constants
+            return self.block(rest, env, k)
         if isinstance(s, ast.Pass):
             return self.block(rest, env, k)
         if isinstance(s, ast.Return):
@@ -1308,6 +1360,12 @@ class Proc(object):
             if isinstance(tgt, ast.Tuple) and all(isinstance(x, ast.Name) for x in tgt.elts) and not isinstance(s.value, ast.Tuple):
                 # a, b = xs  with xs a list: Python raises ValueError unless it has exactly that many items
                 vt, vty = self.expr(s.value, env)
+                if isinstance(vty, tuple) and vty[0] == "Except" and isinstance(vty[2], tuple) and vty[2][0] == "Prod" and self.may_bind(vty):
+                    # the value of a raising call unpacked: the call first (its error propagates), then the unpacking of its value
+                    tmpn = env.fresh("_unpacked")
+                    first = ast.copy_location(ast.Assign(targets=[ast.Name(id=tmpn, ctx=ast.Store())], value=s.value), s)
+                    second = ast.copy_location(ast.Assign(targets=[tgt], value=ast.copy_location(ast.Name(id=tmpn, ctx=ast.Load()), s)), s)
+                    return self.block([first, second] + rest, env, k)
                 if isinstance(vty, tuple) and vty[0] == "Prod" and len(vty) - 1 == len(tgt.elts):
                     tmp = env.fresh("pair")
                     out, en = "let %s : %s := %s;\n" % (tmp, lty(vty), vt), env
@@ -1345,6 +1403,20 @@ class Proc(object):
                     self.dictconsts = {}
                 self.dictconsts[tgt.id] = dict((kw.arg, kw.value) for kw in s.value.keywords)      # parameters of a %-template: folded into the token
                 return self.block(rest, env, k)
+            if isinstance(s.value, ast.Dict) and isinstance(tgt, (ast.Name, ast.Attribute)) and self.spec.get("dict_as_list"):
+                # a dictionary literal the function iterates over / tests membership in: the list of its (key, value) pairs in the order written; a value that
+                # is None in some entries is optional
+                keys = [self.expr(x, env) for x in s.value.keys]
+                nones = [isinstance(x, ast.Constant) and x.value is None for x in s.value.values]
+                vals = [None if nn else self.expr(x, env) for x, nn in zip(s.value.values, nones)]
+                vty0 = next(v[1] for v in vals if v is not None)
+                vty = ("Opt", vty0) if any(nones) else vty0
+                name = self.seg(tgt)
+                lean = env.fresh(name.replace(".", "_"))
+                txt = "[" + ", ".join("(%s, %s)" % (a[0], ("none" if b is None else ("(some %s)" % b[0] if any(nones) else b[0]))) for a, b in zip(keys, vals)) + "]"
+                dty = ("AssocL", keys[0][1], vty)
+                en = env.bind(name, lean, dty)
+                return "let %s : %s := %s;\n%s" % (lean, lty(dty), txt, self.block(rest, en, k))
             if isinstance(s.value, ast.Dict) and isinstance(tgt, (ast.Name, ast.Attribute)):
                 keys = [self.expr(x, env) for x in s.value.keys]
                 vals = [self.expr(x, env) for x in s.value.values]
@@ -1528,8 +1600,32 @@ class Proc(object):
                             s.test, env, lambda en: self.block(s.body, en, lambda _: "%s ()" % j), lambda en: self.block(s.orelse, en, lambda _: "%s ()" % j)))
                     except Untranslatable:
                         pass
+                elif self.spec.get("param_joins"):
+                    # the branches assign variables: what follows is translated once as a function of the variables that exist before the `if` and are assigned in a
+                    # branch (a variable first assigned inside a branch must not be read afterwards); otherwise it is inlined into the branches
+                    assigned = self.assigns(s.body) | self.assigns(s.orelse)
+                    pre = [n for n in sorted(assigned) if n in env.vars]
+                    new = [n for n in assigned if n not in env.vars]
+                    loads = set(n.id for st in rest for n in ast.walk(st) if isinstance(n, ast.Name) and isinstance(n.ctx, ast.Load))
+                    if pre and not (set(new) & loads) and not env.aliases and not any(isinstance(n, (ast.Return, ast.Raise, ast.Break)) for st in s.body + s.orelse for n in ast.walk(st)):
+                        try:
+                            j = env.fresh("k")
+                            en_after, params = env, []
+                            for n in pre:
+                                ln = env.fresh(n.replace(".", "_"))
+                                params.append((n, ln, env.vars[n][1]))
+                                en_after = en_after.bind(n, ln, env.vars[n][1])
+                            after = self.block(rest, en_after, k)
+                            callj = lambda en: "%s %s" % (j, " ".join(self.coerce(en.vars[n][0], en.vars[n][1], t) for n, _, t in params))
+                            return "let %s : %s → %s := (fun %s => (%s));\n%s" % (
+                                j, " → ".join(lty(t) for _, _, t in params), lty(self.ret), " ".join("(%s : %s)" % (ln, lty(t)) for _, ln, t in params), after,
+                                self.cond(s.test, env, lambda en: self.block(s.body, en, callj), lambda en: self.block(s.orelse, en, callj)))
+                        except Untranslatable:
+                            pass
             cont = lambda en: self.block(rest, en, k)
             return self.cond(s.test, env, lambda en: self.block(s.body, en, cont), lambda en: self.block(s.orelse, en, cont))
+        if isinstance(s, ast.Break) and getattr(self, "_break_k", None) is not None and getattr(self, "_loop_depth", 0) == 0:
+            return self._break_k(env)
         if isinstance(s, ast.While):
             return self.whileloop(s, rest, env, k)
         if isinstance(s, ast.For):
@@ -1687,7 +1783,13 @@ class Proc(object):
         def recurse(en):
             return "%s %s %s" % (lname, " ".join([n for n, _ in self.fixed] + ["%s" % en.vars[n][0] if en.vars[n][1] == t else self.coerce(en.vars[n][0], en.vars[n][1], t) for (n, _, t) in scope]), tail)
         nil_case = self.block(rest, inner, k_for_loop(self, k, env, inner))
-        cons_case = self.block(s.body, body_env, recurse)
+        # `break`: what follows the loop, in the environment of the point where the loop is left
+        saved_break = getattr(self, "_break_k", None)
+        self._break_k = lambda en: self.block(rest, en, k_for_loop(self, k, env, inner))
+        try:
+            cons_case = self.block(s.body, body_env, recurse)
+        finally:
+            self._break_k = saved_break
         fixed = "".join(" (%s : %s)" % (n, lty(t)) for n, t in self.fixed)
         sig = fixed + "".join(" (%s : %s)" % (pn, lty(t)) for pn, t in pnames)
         ind = lambda t: "\n".join(("    " + l if i else l) for i, l in enumerate(t.split("\n")))
@@ -1898,6 +2000,14 @@ INI_REC = {"IniRec": {"default_section": ("default_section", "Str")}, "OvRec": {
 INI_METHODS = {("IniRec", "has_option"): ("hasOption", ["Str", "Str"], "Bool"), ("IniRec", "has_section"): ("hasSection", ["Str"], "Bool"),
                ("IniRec", "__getitem__"): ("sectionKeys", ["Str"], ("List", "Str"))}
 INI_MUT = {("IniRec", "remove_option"): ("removeOption", ["Str", "Str"]), ("IniRec", "remove_section"): ("removeSection", ["Str"]), ("IniRec", "add_section"): ("addSection", ["Str"])}
+QAF = "tools/potable/_query_actions.py"
+QA_REC = {"CpObj": {"raw_config_parser": ("raw", ("Rec", "IniRec")), "_config_parser": ("raw", ("Rec", "IniRec"))}, "IniRec": {"default_section": ("default_section", "Str")}}
+QA_METHODS = {("IniRec", "has_section"): ("hasSection", ["Str"], "Bool"), ("IniRec", "__getitem__"): ("sectionKeys", ["Str"], ("List", "Str")),
+              ("IniRec", "__getitem2__"): ("getValue", ["Str", "Str"], "Str"), ("IniRec", "sections"): ("sectionsOf", [], ("List", "Str")),
+              ("IniRec", "defaults"): ("defaultKeys", [], ("List", "Str")), ("IniRec", "get"): ("getValue", ["Str", "Str"], "Str")}
+QA_OPS = [("hasSection", ("Fun", [("Rec", "IniRec"), "Str"], "Bool")), ("sectionKeys", ("Fun", [("Rec", "IniRec"), "Str"], ("List", "Str"))),
+          ("getValue", ("Fun", [("Rec", "IniRec"), "Str", "Str"], "Str")), ("sectionsOf", ("Fun", [("Rec", "IniRec")], ("List", "Str"))),
+          ("defaultKeys", ("Fun", [("Rec", "IniRec")], ("List", "Str"))), ("isRelevant", ("Fun", ["Str"], "Bool"))]
 CALLABLE_REC = {"Callable": {"has_deriv": ("has_deriv", "Bool"), "has_deriv2": ("has_deriv2", "Bool")}}
 
 PROCS = [
@@ -2237,6 +2347,29 @@ PROCS = [
          ops={"_set_value": ("setValue", [("Rec", "IniRec"), ("Rec", "OvRec")], ("Except", "OvErr", ("Rec", "IniRec")))}, inout_calls={"_set_value": 0},
          raises=[("not found in configuration file when processing overrides", "OvErr.missing"), ("already exists in configuration file whilst adding", "OvErr.exists"),
                  ("cannot be added, the section name is empty", "OvErr.missing")]),
+    # ---- C14: --list-items: which sections are listed, through which route, in which order
+    dict(name="parsed_sections", file="config/_config_parser.py", func="ConfigParser.parsed_sections", class_dicts=["_section_map"], dict_as_list=True,
+         params=[("self", ("Rec", "CpObj"))], ret=("List", "Str"), records=QA_REC, methods=QA_METHODS, implicit=QA_OPS, locals={"sections": ("List", "Str")}),
+    dict(name="orphan_sections", file="config/_config_parser.py", func="ConfigParser.orphan_sections", class_dicts=["_section_map"], dict_as_list=True,
+         params=[("self", ("Rec", "CpObj"))], ret=("List", "Str"), records=QA_REC, methods=QA_METHODS, implicit=QA_OPS, locals={"sections": ("List", "Str")},
+         seg_ops={"_TableFormSection.is_relevant_section": ("isRelevant", ["Str"], "Bool")}),
+    dict(name="list_section", file=QAF, func="_list_section", str_format=True, params=[("cp", ("Rec", "CpObj")), ("section", "Str")], ret=("List", ("Prod", "Str", "Str")),
+         records=QA_REC, methods=QA_METHODS, implicit=QA_OPS, locals={"outlist": ("List", ("Prod", "Str", "Str"))}, retype=["k"]),
+] + [
+    dict(name="list_%s" % nm, file=QAF, func="_list_%s" % nm, params=[("cp", ("Rec", "CpObj"))], ret=("List", ("Prod", "Str", "Str")), records=QA_REC, methods=QA_METHODS, implicit=QA_OPS)
+    for nm in ("pair", "potential_form", "tabulation", "eam_dens", "eam_embed")
+] + [
+    dict(name="parse_raw", file=QAF, func="_parse_raw", params=[("cp", ("Rec", "CpObj")), ("orphan_sections", ("List", "Str"))], ret=("List", ("Prod", "Str", "Str")),
+         records=QA_REC, methods=QA_METHODS, implicit=QA_OPS, locals={"outlist": ("List", ("Prod", "Str", "Str"))}),
+    dict(name="list_items", file=QAF, func="_list_items", str_format=True, param_joins=True, params=[("cp", ("Rec", "CpObj"))], ret=("List", ("Prod", "Str", "Str")),
+         records=QA_REC, methods=QA_METHODS, implicit=QA_OPS, locals={"items": ("List", ("Prod", "Str", "Str"))}, import_names_only=["_TableFormSection"],
+         seg_ops={"_TableFormSection.is_relevant_section": ("isRelevant", ["Str"], "Bool")},
+         const_attrs={"_TableFormSection._section_name_prefix": ('"Table-Form"', "Str", "config/_config_parser.py")},
+         properties={("CpObj", "parsed_sections"): ("config/_config_parser.py", "parsed_sections"), ("CpObj", "orphan_sections"): ("config/_config_parser.py", "orphan_sections")}),
+    dict(name="item_value", file=QAF, func="_item_value", params=[("cp", ("Rec", "CpObj")), ("key", "Str")], ret=("Except", "OvErr", "Str"),
+         records=QA_REC, methods=dict(list(QA_METHODS.items()) + [(("IniRec", "has_option"), ("hasOption", ["Str", "Str"], "Bool"))]),
+         implicit=QA_OPS + [("hasOption", ("Fun", [("Rec", "IniRec"), "Str", "Str"], "Bool"))], import_names_only=["ConfigOverrideException"], unpack_error="OvErr.malformedOption",
+         raises=[("does not name an item", "OvErr.malformedOption"), ("not found in configuration file", "OvErr.missing")]),
     # ---- C14: the command-line layer
     dict(name="create_override_tuple", file="tools/potable/__init__.py", func="_create_override_tuple",
          params=[("key", "Str"), ("has_value", "Bool")], ret=("Except", "OvErr", ("Rec", "OvRec")), records=INI_REC, unpack_error="OvErr.malformedOption",
@@ -2286,6 +2419,22 @@ PROCS = [
          ops={"_create_reference_data": ("mkRefData", [("Rec", "CpRec")], ("Rec", "RefObj")),
               "eam_builder_class": ("eamBuilder", [("Rec", "CpRec"), "Unit", "Unit", ("Rec", "RefObj")], ("Except", "FactoryErr", ("Rec", "BuilderObj")))},
          attr_ops={("BuilderObj", "eam_potentials"): ("eamPotentialsOf", ("List", ("Rec", "EamRec")))}),
+    dict(name="adp_extract_dipoles", klass="ADP_EAMTabulationFactory", file=TFF, func="ADP_EAMTabulationFactory.extract_dipoles",
+         params=[("cp", ("Rec", "CpRec")), ("potential_form_registry", "Unit"), ("modifier_registry", "Unit")], ret=("Except", "FactoryErr", ("List", ("Rec", "PotObj"))), records=CP_REC,
+         implicit=[("sectionObjects", ("Fun", [("Rec", "CpRec"), "Unit", "Unit", "Str"], ("Except", "FactoryErr", ("List", ("Rec", "PotObj")))))],
+         ops={"_extract_pots": ("sectionObjects", [("Rec", "CpRec"), "Unit", "Unit", "Str"], ("Except", "FactoryErr", ("List", ("Rec", "PotObj"))))}),
+    dict(name="adp_extract_quadrupoles", klass="ADP_EAMTabulationFactory", file=TFF, func="ADP_EAMTabulationFactory.extract_quadrupoles",
+         params=[("cp", ("Rec", "CpRec")), ("potential_form_registry", "Unit"), ("modifier_registry", "Unit")], ret=("Except", "FactoryErr", ("List", ("Rec", "PotObj"))), records=CP_REC,
+         implicit=[("sectionObjects", ("Fun", [("Rec", "CpRec"), "Unit", "Unit", "Str"], ("Except", "FactoryErr", ("List", ("Rec", "PotObj")))))],
+         ops={"_extract_pots": ("sectionObjects", [("Rec", "CpRec"), "Unit", "Unit", "Str"], ("Except", "FactoryErr", ("List", ("Rec", "PotObj"))))}),
+    dict(name="adp_extract_tabulation_args", variant=True, klass="ADP_EAMTabulationFactory", file=TFF, func="ADP_EAMTabulationFactory.extract_tabulation_args", arg_lists=True,
+         params=[("cp", ("Rec", "CpRec")), ("r_cutoff", ("Rec", "RRhoCut")), ("potobjs", ("List", ("Rec", "PotObj"))), ("potential_form_registry", "Unit"), ("modifier_registry", "Unit")],
+         ret=("Except", "FactoryErr", ("Prod", ("List", ("Rec", "PotObj")), ("List", ("Rec", "EamRec")), ("List", ("Rec", "PotObj")), ("List", ("Rec", "PotObj")), "Rat", "Int", "Rat", "Int")), records=dict(CP_REC, **{"BuilderObj": {}, "RefObj": {}}), super_calls={"extract_tabulation_args": "eam_extract_tabulation_args"},
+         dispatch={"extract_dipoles": "adp_extract_dipoles", "extract_quadrupoles": "adp_extract_quadrupoles"},
+         implicit=[("mkRefData", ("Fun", [("Rec", "CpRec")], ("Rec", "RefObj"))),
+                   ("eamBuilder", ("Fun", [("Rec", "CpRec"), "Unit", "Unit", ("Rec", "RefObj")], ("Except", "FactoryErr", ("Rec", "BuilderObj")))),
+                   ("eamPotentialsOf", ("Fun", [("Rec", "BuilderObj")], ("List", ("Rec", "EamRec")))),
+                   ("sectionObjects", ("Fun", [("Rec", "CpRec"), "Unit", "Unit", "Str"], ("Except", "FactoryErr", ("List", ("Rec", "PotObj")))))]),
 ] + [
     dict(name="%s_create_tabulation" % k, variant=(k != "pair"), klass=cls, file=TFF, func="PairTabulationFactory.create_tabulation",
          skip_calls=["self._log_tabulation_details"], logging_only=["%s._log_tabulation_details" % cls],
@@ -2303,7 +2452,12 @@ PROCS = [
          ("Prod", ("List", ("Rec", "PotObj")), ("List", ("Rec", "EamRec")), "Rat", "Int", "Rat", "Int"),
          [("mkRefData", ("Fun", [("Rec", "CpRec")], ("Rec", "RefObj"))),
           ("eamBuilder", ("Fun", [("Rec", "CpRec"), "Unit", "Unit", ("Rec", "RefObj")], ("Except", "FactoryErr", ("Rec", "BuilderObj")))),
-          ("eamPotentialsOf", ("Fun", [("Rec", "BuilderObj")], ("List", ("Rec", "EamRec"))))])]
+          ("eamPotentialsOf", ("Fun", [("Rec", "BuilderObj")], ("List", ("Rec", "EamRec"))))]),
+        ("adp", "ADP_EAMTabulationFactory", "eam_extract_cutoffs", "adp_extract_tabulation_args", ("Prod", ("List", ("Rec", "PotObj")), ("List", ("Rec", "EamRec")), ("List", ("Rec", "PotObj")), ("List", ("Rec", "PotObj")), "Rat", "Int", "Rat", "Int"),
+         [("mkRefData", ("Fun", [("Rec", "CpRec")], ("Rec", "RefObj"))),
+          ("eamBuilder", ("Fun", [("Rec", "CpRec"), "Unit", "Unit", ("Rec", "RefObj")], ("Except", "FactoryErr", ("Rec", "BuilderObj")))),
+          ("eamPotentialsOf", ("Fun", [("Rec", "BuilderObj")], ("List", ("Rec", "EamRec")))),
+          ("sectionObjects", ("Fun", [("Rec", "CpRec"), "Unit", "Unit", "Str"], ("Except", "FactoryErr", ("List", ("Rec", "PotObj")))))])]
 ] + [
     # ---- C20: the registry's label checks
     dict(name="build_potential_forms", file="config/_potential_form_registry.py", func="Potential_Form_Registry._build_potential_forms",
@@ -2704,6 +2858,17 @@ def orderedPairs {α : Type} (xs : List α) : List (α × α) :=
       | some a, some b => some (a, b)
       | _, _ => none
 
+/-- `sub in s` for texts (non-empty `sub`) -/
+def charsContain (sub : List Char) : List Char → Bool
+  | [] => sub.isEmpty
+  | c :: t => sub.isPrefixOf (c :: t) || charsContain sub t
+def strContains (s sub : String) : Bool := charsContain sub.toList s.toList
+
+/-- a `ConfigParser` object as the query actions see it: its raw parser -/
+structure CpObj where
+  raw : IniRec
+deriving Repr
+
 /-- what `Configuration.read_from_parser` reads of the parser: `cp.tabulation.target` -/
 structure TabT where
   target : Option String
@@ -3064,6 +3229,14 @@ def gen_logic(repo, outdir, summary, write_if_changed):
                 cd = next((n for n in ctree.body if isinstance(n, ast.ClassDef) and n.name == cname), None)
                 if cd is None or [ast.unparse(b) for b in cd.bases] != [base]:
                     raise Untranslatable("class %s(%s) not found in %s" % (cname, base, cfile))
+            for cname_attr, (ltext, lty_, cfile) in spec.get("const_attrs", {}).items():
+                ccls, cattr = cname_attr.rsplit(".", 1)
+                ctree = ast.parse(open(os.path.join(repo, "atsim/potentials", cfile)).read())
+                cd = next((n for n in ctree.body if isinstance(n, ast.ClassDef) and n.name == ccls), None)
+                asg = None if cd is None else next((n for n in cd.body if isinstance(n, ast.Assign) and len(n.targets) == 1 and isinstance(n.targets[0], ast.Name)
+                                                    and n.targets[0].id == cattr and isinstance(n.value, ast.Constant)), None)
+                if asg is None or lstr(asg.value.value) != ltext:
+                    raise Untranslatable("%s is not the constant %s" % (cname_attr, ltext))
             for kname, cmpf in spec.get("sort_keys", {}).items():
                 ok = any(isinstance(n, ast.Assign) and len(n.targets) == 1 and isinstance(n.targets[0], ast.Name) and n.targets[0].id == kname
                          and ast.unparse(n.value).replace(" ", "") == "functools.cmp_to_key(%s)" % cmpf for n in tree.body)
@@ -3087,7 +3260,7 @@ def gen_logic(repo, outdir, summary, write_if_changed):
                 if dn not in defs or not isinstance(defs[dn], ast.Constant) or defs[dn].value != want:
                     raise Untranslatable("default of %s is not %s" % (dn, dv))
             p = _SegProc(spec, src, fn, procs)
-            p.called = []
+            p.called, p.called_super = [], []
             text = p.translate()
             if spec.get("klass"):
                 # the function as it behaves on an object of the subclass `klass`: what is taken from the base class (the function itself, and the methods it calls
@@ -3095,16 +3268,20 @@ def gen_logic(repo, outdir, summary, write_if_changed):
                 kcls = next((n for n in tree.body if isinstance(n, ast.ClassDef) and n.name == spec["klass"]), None)
                 if kcls is None or len(kcls.bases) != 1:
                     raise Untranslatable("no class %s with one base" % spec["klass"])
-                base = ast.unparse(kcls.bases[0])
-                own = set(n.name for n in kcls.body if isinstance(n, ast.FunctionDef))
                 for q in [spec] + p.called:
                     if q["file"] != spec["file"] or "." not in q["func"]:
                         continue
                     qcls, qm = q["func"].rsplit(".", 1)
-                    if qcls == spec["klass"]:
-                        continue
-                    if qcls != base or qm in own:
+                    if next((n for n in tree.body if isinstance(n, ast.ClassDef) and n.name == qcls), None) is None:
+                        continue          # not a method of a class of this file (a nested helper function)
+                    if mro_owner(tree, spec["klass"], qm) != qcls:
                         raise Untranslatable("%s: %s is not what an object of %s runs" % (spec["name"], q["func"], spec["klass"]))
+                for q in p.called_super:
+                    # super().method(...): resolved from the base of the class that defines the calling method
+                    qcls, qm = q["func"].rsplit(".", 1)
+                    here = next((n for n in tree.body if isinstance(n, ast.ClassDef) and n.name == spec["func"].rsplit(".", 1)[0]), None)
+                    if here is None or len(here.bases) != 1 or mro_owner(tree, ast.unparse(here.bases[0]), qm) != qcls:
+                        raise Untranslatable("%s: super().%s is not %s" % (spec["name"], qm, q["func"]))
             res[spec["name"]] = True
             out.append("/-- %s `%s` -/" % (spec["file"], spec["func"]))
             out.append(text)
